@@ -21,6 +21,7 @@ import (
 	"evylang.dev/evy/learn/pkg/learn"
 	"evylang.dev/evy/vdrv/core"
 	"evylang.dev/evy/vsim/prng"
+	"gopkg.in/yaml.v3"
 )
 
 // Key is one fixture key pair.
@@ -48,18 +49,19 @@ type tierCfg struct {
 	questions int
 	entropy   int
 	freshKeys int
+	files     int // seal -> write file -> load -> unseal round trips through the stored file
 }
 
 func cfg(tier string) tierCfg {
 	if tier == "thorough" {
-		return tierCfg{sealed: 480, allBytes: true, roundtrip: 6000, questions: 6000, entropy: 600, freshKeys: 6}
+		return tierCfg{sealed: 480, allBytes: true, roundtrip: 6000, questions: 6000, entropy: 600, freshKeys: 6, files: 4000}
 	}
-	return tierCfg{sealed: 16, allBytes: false, roundtrip: 1900, questions: 260, entropy: 40}
+	return tierCfg{sealed: 16, allBytes: false, roundtrip: 1900, questions: 260, entropy: 40, files: 160}
 }
 
 func (d *D) Count(tier string) int {
 	c := cfg(tier)
-	return c.sealed + c.roundtrip + c.questions + c.entropy
+	return c.sealed + c.roundtrip + c.questions + c.entropy + c.files
 }
 
 func setPlain(sc *core.Scenario, p string) {
@@ -192,6 +194,9 @@ func (d *D) Base(idx int, ctx *core.Ctx) *core.Scenario {
 		if r.Chance(0.5) {
 			sc.Sealed["entropy_short"] = "1"
 		}
+	case idx >= c.sealed+c.roundtrip+c.entropy+c.questions:
+		sc.Kind = "file-roundtrip"
+		setPlain(sc, fileText(r))
 	default:
 		sc.Kind = "question"
 		n := r.Range(2, 5)
@@ -746,8 +751,117 @@ func (d *D) runEntropy(sc *core.Scenario, ctx *core.Ctx) *core.Violation {
 	return nil
 }
 
+var fileTexts = []string{"print \"hi\"\n", "a: b", "- item", "# not a comment", "'single'", "\"double\"", " leading", "trailing ", "tab\there", "| pipe", "> fold", "---", "...",
+	"null", "true", "123", "~", "1e3", "0x10", "yes", "é日本𝄞", "line1\nline2", "line1\n\nline3\n", "\nstarts with newline", "ends with two newlines\n\n", "{a: 1}", "[1, 2]", "&anchor", "*alias", "!tag", "%percent", "@at", "`tick`",
+	"key: value: more", "multi\n  indented\n    more\n", "x := 1\nwhile x < 3\n    x = x + 1\nend\nprint x\n", "windows\r\nline", "a\u00a0b", "\ufeffbom"}
+
+func fileText(r *prng.R) string {
+	t := fileTexts[r.Intn(len(fileTexts))]
+	switch r.Intn(4) {
+	case 0:
+		t = t + fileTexts[r.Intn(len(fileTexts))]
+	case 1:
+		t = strings.Repeat(t, r.Range(2, 40))
+	case 2:
+		t = t + "\n" + strings.Repeat("y", r.Range(60, 400))
+	}
+	return t
+}
+
+// runFile: the stored artefact is the question file itself. Load it, seal,
+// write it back, load the written file, unseal: the answer must be the one
+// that was loaded in the first place; writing the unsealed form back and
+// loading once more must not change it either.
+func (d *D) runFile(sc *core.Scenario, ctx *core.Ctx) *core.Violation {
+	text := getPlain(sc)
+	pub, priv := sc.Sealed["public_key"], sc.Sealed["private_key"]
+	fm, err := yaml.Marshal(map[string]string{"type": "question", "difficulty": "easy", "answer-type": "text", "verification": "none", "answer": text})
+	if err != nil {
+		return nil
+	}
+	content := "---\n" + string(fm) + "---\n\n## Generated\n\nWhat is printed?\n\n```\nout\n```\n\nAnswer:\n\n```\nout\n```\n"
+	path := d.writeQ(content)
+	var v *core.Violation
+	step := ""
+	fail := func(what string, extra map[string]any) {
+		obs := map[string]any{"step": what, "answer_text": short(text)}
+		for k, x := range extra { // merged into a map that json sorts
+			obs[k] = x
+		}
+		v = &core.Violation{Oracle: "file-roundtrip", Signature: "file:" + what,
+			Expected: "seal, write the file, load it, unseal: the answer is the one that was loaded before sealing", Observed: obs, Match: map[string]string{"oracle": "file-roundtrip", "step": what}}
+	}
+	p := guard(func() {
+		step = "load"
+		m, err := learn.NewQuestionModel(path, learn.WithPrivateKey(priv))
+		if err != nil {
+			return // a text the front matter cannot carry at all: not this oracle's business
+		}
+		a0 := m.Frontmatter.Answer
+		if a0 == "" {
+			return
+		}
+		step = "seal"
+		var serr error
+		withEntropy(&entropy{r: prng.Derive(sc.Seed, uint64(sc.Index), 9), limit: -1}, func() { serr = m.Seal(pub) })
+		if serr != nil {
+			fail("seal", map[string]any{"error": serr.Error()})
+			return
+		}
+		step = "write-sealed"
+		if err := m.WriteFormatted(); err != nil {
+			fail("write-sealed", map[string]any{"error": err.Error()})
+			return
+		}
+		step = "load-sealed"
+		m2, err := learn.NewQuestionModel(path, learn.WithPrivateKey(priv))
+		if err != nil {
+			fail("load-sealed", map[string]any{"error": err.Error()})
+			return
+		}
+		if m2.Frontmatter.Answer != "" || m2.Frontmatter.SealedAnswer == "" {
+			fail("load-sealed", map[string]any{"answer_now": short(m2.Frontmatter.Answer)})
+			return
+		}
+		step = "unseal"
+		if err := m2.Unseal(); err != nil {
+			fail("unseal", map[string]any{"error": err.Error()})
+			return
+		}
+		if m2.Frontmatter.Answer != a0 {
+			fail("unseal", map[string]any{"loaded_before_sealing": short(a0), "after_unseal": short(m2.Frontmatter.Answer)})
+			return
+		}
+		step = "write-unsealed"
+		if err := m2.WriteFormatted(); err != nil {
+			fail("write-unsealed", map[string]any{"error": err.Error()})
+			return
+		}
+		m3, err := learn.NewQuestionModel(path, learn.WithPrivateKey(priv))
+		if err != nil {
+			fail("load-unsealed", map[string]any{"error": err.Error()})
+			return
+		}
+		if m3.Frontmatter.Answer != a0 {
+			fail("load-unsealed", map[string]any{"loaded_before_sealing": short(a0), "after_write_and_load": short(m3.Frontmatter.Answer)})
+		}
+	})
+	if ctx != nil {
+		ctx.Inc("evaluations", 1)
+		ctx.Inc("file_roundtrips", 1)
+		ctx.Distinct(prng.HashString("file" + text))
+	}
+	if p != "" {
+		return &core.Violation{Oracle: "no-panic", Signature: "panic:file-" + step, Expected: "sealing through the stored file never crashes",
+			Observed: map[string]any{"panic": p, "step": step, "answer_text": short(text)}, Match: map[string]string{"oracle": "panic"}}
+	}
+	return v
+}
+
 func (d *D) run(sc *core.Scenario, ctx *core.Ctx, tier string) *core.Violation {
 	switch sc.Kind {
+	case "file-roundtrip":
+		return d.runFile(sc, ctx)
 	case "corruption":
 		return d.runCorruption(sc, ctx, cfg(tier).allBytes)
 	case "roundtrip":
@@ -801,7 +915,7 @@ func (d *D) Describe(ev *core.Evidence, st *core.Stats) {
 	faults["entropy-source-failed"] = c["entropy_fault_made_encrypt_fail"]
 	ev.Coverage["faults_injected"] = faults
 	ev.Coverage["probes"] = map[string]int64{"damaged_values_still_opening_to_original": c["damaged_values_still_opening_to_original"], "wrong_key_opened_to_original": c["wrong_key_opened_to_original"],
-		"verifications": c["verifications"], "verifications_of_corrupted_sealed_files": c["verifications_of_corrupted_sealed_files"], "roundtrips": c["roundtrips"], "frontmatter_roundtrips": c["frontmatter_roundtrips"]}
+		"verifications": c["verifications"], "verifications_of_corrupted_sealed_files": c["verifications_of_corrupted_sealed_files"], "roundtrips": c["roundtrips"], "frontmatter_roundtrips": c["frontmatter_roundtrips"], "file_roundtrips": c["file_roundtrips"]}
 	ev.Coverage["components"] = map[string][]string{"real": {"learn.Encrypt/Decrypt (RSA-OAEP + AES-GCM envelope)", "questionFrontmatter Seal/Unseal/getAnswer", "QuestionModel: markdown parsing, Verify, verifyChoiceMatch, correctAnswerIndices", "runEvy (the real evaluator produces every output)"},
 		"stub": {"crypto/rand.Reader (seeded stream, made to fail or run short)", "stored sealed value (damaged by the simulator)"}}
 	ev.Assumptions = []string{
